@@ -53,7 +53,7 @@ BATCH = 10
 
 
 def quick_runs(prop):
-    return {'C20': 1600, 'C21': 5000}.get(prop, 500)
+    return {'C20': 2400, 'C21': 8000}.get(prop, 500)
 
 
 ###############################################################################
